@@ -14,7 +14,9 @@ def check(F, rep):
     rep.undecided("what watchers observe in between (n0-watcher's contract)")
     meths = {}
     for name in ("set", "clear", "set_status"):
-        meths[name] = get_fn(F, rep, HW + "::" + name)
+        from ..inline import inlined
+        # set / clear may delegate to a private helper that takes the lock: inlined view
+        meths[name] = inlined(F, get_fn(F, rep, HW + "::" + name))
     lock_fields = {}
     for name, g in meths.items():
         gs = guards(g)
